@@ -52,10 +52,16 @@ def FlDom (times : List Rat) (rate bin window : Rat) : Prop :=
 instance (times : List Rat) (rate bin window : Rat) : Decidable (FlDom times rate bin window) := by
   unfold FlDom; infer_instance
 
-/-- every product `time * rate` is computed exactly (the spike times lie on the sample grid as far as the
-float unit is concerned): the quantifier of the property -/
-def timesExact (times : List Rat) (rate : Rat) : Bool :=
-  times.all fun t => isDoubleB (t * rate)
+/-- the quantifier of the property ("sample rates for which time*rate is exact"): every FLOAT product
+`time * rate` is a whole number of samples, so that truncation has nothing to cut (spike times on the sample grid
+as far as the float unit is concerned, e.g. `t = fl(T / rate)`).  Used by the correspondence run only, to grade a
+disagreement (on the grid: the property fails; off the grid: the code no longer matches the model). -/
+def timesOnGrid (times : List Rat) (rate : Rat) : Bool :=
+  times.all fun t => (roundDouble (t * rate)).den == 1
+
+/-- bin or window outside `[1e-5, 1e5]` s: the code silently replaces them by the bound -/
+def clipped (bin window : Rat) : Bool :=
+  clip bin clipLo clipHi != bin || clip window clipLo clipHi != window
 
 /-- `correlograms(spike_times, spike_clusters, cluster_ids, sample_rate, bin_size, window_size, symmetrize)` with
 the arguments read as doubles.  `none` = an assertion fails or an exception is raised (rate ≤ 0, decreasing
